@@ -60,6 +60,8 @@ THEOREMS = [
     "PV.C04.fstr_leading_equals_partial",
     "PV.C04.nestGo_eq_matchGo_erased",
     "PV.C04.nestGo_iff_dyck_erased",
+    "PV.C04.softkw_error_transparent_fails",
+    "PV.C04.softkw_error_cuts_line_partial",
 ]
 TRUSTED = [
     "Lean 4.33.0 kernel; axioms limited to propext, Classical.choice, Quot.sound",
@@ -226,6 +228,8 @@ def request_text(req):
         return "", render_indent(ws[1])[0], ""
     if op in ("num", "parse", "strlex", "lexerr"):
         return "", unhex(ws[1]).decode(), ""
+    if op == "softkw":
+        return "", "match" + unhex(ws[1]).decode().replace("s", " s").replace("l", " lambda ") + "\n", ""
     if op == "chr":
         return "", "x" + chr(int(ws[1])) + ("=" if ws[2] == "1" else "") + "y", ""
     if op == "cont":
@@ -260,10 +264,12 @@ def py_rejects(text, stage="parse"):
 # Each returns a list of (wire_kind, [(lo, hi) windows]) for the rules the construct breaks.
 
 def spec_sig(items):
+    """windows are half-open [start, end) of the rendered item: these errors are located at AST nodes"""
     text, spans = render_sig(items)
+    spans = [(a, b - 1) for a, b in spans]
     out = []
     if items and items[-1][0] == "s":
-        out.append(("Other", [(spans[-1][0], spans[-1][1])]))
+        out.append(("Other", [spans[-1]]))
     posn = [i for i, it in enumerate(items) if it[0] in "pn"]
     bad = [j for j in posn if not items[j][2] and any(items[i][2] for i in posn if i < j)]
     if bad:
@@ -285,6 +291,7 @@ def sig_in_domain(items):
 
 def spec_call(items):
     text, spans = render_call(items)
+    spans = [(a, b - 1) for a, b in spans]
     out = []
     kwlike = lambda it: it == "d" or it[0] == "k"
     bad = [j for j, it in enumerate(items) if it == "p" and any(kwlike(x) for x in items[:j])]
@@ -650,7 +657,7 @@ def oracle(req, out):
         if not lo <= off <= hi:
             return f"{rule}: {kind} reported at offset {off}, outside the offending construct {lo}..{hi}"
         return None
-    if op in ("parse", "lexerr"):
+    if op in ("parse", "lexerr", "softkw"):
         return None
     return None
 
@@ -937,6 +944,124 @@ def _violating(req):
     return True
 
 
+def random_streams(ctx):
+    """longer constructs than the exhaustive scopes reach: mostly valid shapes with one random flaw"""
+    q = ctx.quick
+    n = 1500 if q else 30000
+    out = []
+    rng = ctx.rng("random-sig")
+    reqs = []
+    for _ in range(n):
+        k = rng.randrange(3, 9)
+        names = rng.sample("0123456789", k) if rng.random() < 0.5 else [rng.choice("0123") for _ in range(k)]
+        cut = sorted(rng.randrange(0, k + 1) for _ in range(4))
+        items, seen_default = [], False
+        for i in range(k):
+            kind = "p" if i < cut[0] else "n" if i < cut[1] else "V" if i < cut[2] else "k" if i < cut[3] else "w"
+            items.append([kind, names[i]])
+        # at most one star item and one `**` item, in grammar order
+        enc, star_done, kw_done = [], False, False
+        for kind, nm in items:
+            if kind == "V":
+                if star_done:
+                    kind = "k"
+                else:
+                    star_done = True
+                    enc.append(("v" if rng.random() < 0.6 else "s") + nm + "0")
+                    continue
+            if kind == "k" and not star_done:
+                kind = "n"
+            if kind == "w":
+                if kw_done:
+                    continue
+                kw_done = True
+                enc.append("w" + nm + "0")
+                continue
+            d = rng.random() < 0.4
+            if kind in "pn":
+                d = seen_default if rng.random() < 0.9 else not seen_default
+                if kind in "pn" and rng.random() < 0.3:
+                    d = True
+                seen_default = seen_default or d
+            enc.append(kind + nm + ("1" if d else "0"))
+        e = ".".join(enc)
+        if not e or not sig_in_domain(sig_items(e)):
+            continue
+        reqs.append(f"sig {e} {ctx_args(rng.choice(SIG_SITES))}")
+    out.append(Stream("random-longer-parameter-lists", reqs, kind="random", nontrivial=_violating,
+                      note="3..8 parameters over up to 10 names, random kinds/defaults, random site"))
+    rng = ctx.rng("random-call")
+    reqs = []
+    for _ in range(n):
+        k = rng.randrange(3, 10)
+        items, phase = [], 0
+        for i in range(k):
+            r = rng.random()
+            if r < 0.1:
+                it = rng.choice(["p", "s", "d", "k" + rng.choice("0123456")])
+            elif phase == 0:
+                it = rng.choice(["p", "p", "s"])
+                if rng.random() < 0.35:
+                    phase = 1
+            else:
+                it = rng.choice(["k" + rng.choice("0123456789"), "d", "s" if "d" not in items else "d"])
+            items.append(it)
+        reqs.append(f"call {'.'.join(items)} {ctx_args(rng.choice(CALL_SITES))}")
+    out.append(Stream("random-longer-argument-lists", reqs, kind="random", nontrivial=_violating))
+    rng = ctx.rng("random-brackets")
+    reqs = []
+
+    def dyck(depth):
+        if depth <= 0 or rng.random() < 0.3:
+            return ""
+        o = rng.choice("([{")
+        return o + dyck(depth - 1) + ")]}"["([{".index(o)] + dyck(depth - 1)
+    for _ in range(n):
+        w = dyck(5)[:14]
+        if w and rng.random() < 0.7:
+            i = rng.randrange(len(w))
+            w = rng.choice([w[:i] + w[i + 1:], w[:i] + rng.choice("()[]{}") + w[i + 1:], w[:i] + rng.choice("()[]{}") + w[i:]])
+        mode = rng.choice(["sep", "raw"])
+        if mode == "raw" and rng.random() < 0.5 and w:
+            i = rng.randrange(len(w) + 1)
+            w = w[:i] + "\n" + w[i:]
+        reqs.append(f"brackets {mode} {hexs(w)}")
+    out.append(Stream("random-longer-bracket-words", reqs, kind="random", nontrivial=_violating))
+    rng = ctx.rng("random-indent")
+    reqs = []
+    for _ in range(n):
+        lines, stack, need = [], [""], False
+        for i in range(rng.randrange(3, 9)):
+            if need:
+                stack.append(stack[-1] + rng.choice(["s", "ss", "ssss", "t"]))
+            elif len(stack) > 1 and rng.random() < 0.4:
+                for _ in range(rng.randrange(1, len(stack))):
+                    stack.pop()
+            ws = stack[-1]
+            if rng.random() < 0.15:
+                ws = rng.choice([ws + "s", ws[:-1], ws.replace("ssss", "t"), "s" + ws, ws + "t", ws.replace("t", "ssssssss")])
+            kind = rng.choice("ooppp") if rng.random() < 0.85 else rng.choice("bc")
+            lines.append(f"{ws or '-'}:{kind}")
+            if kind in "op":
+                need = kind == "o"
+        if need and rng.random() < 0.8:
+            lines.append(f"{stack[-1]}s:p")
+        reqs.append("indent " + ",".join(lines) + "," + rng.choice("nnnN"))
+    out.append(Stream("random-longer-indentation-scripts", reqs, kind="random", nontrivial=_violating))
+    rng = ctx.rng("random-text")
+    reqs = []
+    na = "0123456789_.eEjJxXbBoOaAfF+"
+    for _ in range(n):
+        t = "".join(rng.choice(na) for _ in range(rng.randrange(6, 11)))
+        if rng.random() < 0.5:
+            t = rng.choice(["1", "0x", "0b", "0o", "1.", ".5", "1e", "0"]) + t[:6]
+        reqs.append(f"num {hexs(t)}")
+        reqs.append(f"strlex {hexs(''.join(rng.choice(STR_ALPHA) for _ in range(rng.randrange(7, 13))))}")
+        reqs.append(f"fstr {hexs(''.join(rng.choice(FSTR_ALPHA) for _ in range(rng.randrange(7, 11))))}")
+    out.append(Stream("random-longer-numerals-strings-fstrings", reqs, kind="random", nontrivial=_violating))
+    return out
+
+
 NUM_ALPHA = "019_.e+jxboa"
 FSTR_ALPHA = "{}y!r:=\\"
 STR_ALPHA = "'\"a\\\n"
@@ -972,15 +1097,15 @@ def streams(ctx):
     out.append(Stream("corpus", corpus, kind="corpus", nontrivial=_violating))
 
     # ---- (1) exhaustive small scope of the abstract operations
-    sigs = all_sigs(4)
-    out.append(Stream("sig-exhaustive-<=4-params", [f"sig {e} {ctx_args(c)}" for e in sigs for c in SIG_CTX],
+    sigs = all_sigs(4 if q else 5)
+    out.append(Stream(f"sig-exhaustive-<={4 if q else 5}-params", [f"sig {e} {ctx_args(c)}" for e in sigs for c in SIG_CTX],
                       kind="exhaustive", exhaustive=True, nontrivial=_violating,
-                      note="every grammar-ordered parameter list of <=4 items over 2 names x kinds x default flags, "
+                      note="every grammar-ordered parameter list (<=4 items quick, <=5 thorough) over 2 names x kinds x default flags, "
                            "as def and as lambda"))
-    calls = all_calls(4)
-    out.append(Stream("call-exhaustive-<=4-args", [f"call {e} {ctx_args(c)}" for e in calls for c in CALL_CTX],
+    calls = all_calls(4 if q else 5)
+    out.append(Stream(f"call-exhaustive-<={4 if q else 5}-args", [f"call {e} {ctx_args(c)}" for e in calls for c in CALL_CTX],
                       kind="exhaustive", exhaustive=True, nontrivial=_violating,
-                      note="every argument list of <=4 items over {x, *x, a=0, b=0, **x}, as call and as class bases"))
+                      note="every argument list (<=4 items quick, <=5 thorough) over {x, *x, a=0, b=0, **x}, as call and as class bases"))
     L = 5 if q else 6
     out.append(Stream(f"brackets-sep-exhaustive-len<={L}",
                       [f"brackets sep {hexs(w)}" for w in words("()[]{}", L)], kind="exhaustive", exhaustive=True,
@@ -1015,6 +1140,12 @@ def streams(ctx):
                       kind="exhaustive", exhaustive=True, nontrivial=_violating,
                       note="all f-string bodies over { } y ! r : = backslash"))
 
+    Lk = 5 if q else 6
+    out.append(Stream(f"softkw-lookahead-exhaustive-len<={Lk}", [f"softkw {hexs(w)}" for w in words("s:()l$", Lk)],
+                      kind="exhaustive", exhaustive=True, nontrivial=lambda r: "24" in r.split()[1],
+                      note="`match` + every line over { s, :, (, ), lambda, $ }: is the head delivered as keyword or "
+                           "as NAME (ties the look-ahead model behind the second known finding)"))
+
     # ---- (2) the catalogue applied at every applicable site
     site = []
     short_sigs = all_sigs(3)
@@ -1036,6 +1167,7 @@ def streams(ctx):
                       note="parameter lists in async def/method/nested def/lambda in list, call, default, dict; argument "
                            "lists in decorators, nested calls, class keywords, with-items; parenthesised star forms in "
                            "23 expression positions; `as` patterns in 9 pattern positions; literal concatenations"))
+    out += random_streams(ctx)
     out.append(Stream("single-edits-at-every-site", site_requests(ctx), kind="directed", compare=False,
                       nontrivial=lambda r: True,
                       note="23 kinds of single rule-violating edits (duplicate/default/bare-star parameters, call-site "
